@@ -2,7 +2,8 @@ import NA.Gen.Sinks
 /-!
 # C17: which lemma covers which sink call site
 
-`NA.Gen.Sinks.sites` is regenerated from `/repo` on every run by `translate/sinks`.  The table below
+`NA.Gen.Sinks.sites` is regenerated from `/repo` on every run by `translate/sinks` (typed call
+resolution; EVERY sink call of the module, with its sink kind).  The table below
 is written by hand: it maps the id of every site (a hash of package, function, sink, argument text,
 taint class and ordinal) to the reason why that site cannot reveal a secret — or to the known
 finding F-C17.  A new sink call in scope of a secret, a changed argument, a changed taint class
@@ -30,57 +31,145 @@ inductive Cover where
   | deviceOutput
   /-- do-approve copies a run-log line to stdout / history: `allSinks` -/
   | copyOfRunLog
+  /-- a primitive write inside a sink wrapper of the module (`errlog.*`, `logHistory`, `abort`, `warn`,
+      `logString`): its arguments are the wrapper's parameters, accounted for at every call of the wrapper -/
+  | wrapper
   /-- finding F-C17: the unmasked error of a PAN-OS request after login -/
   | fc17
   deriving DecidableEq, Repr
 
 def cover : List (Nat × Cover) := [
-  (1097982418, .clean),  -- asa.State.LoadDevice: errlog.Info("Requesting device config")
-  (1447683387, .clean),  -- asa.State.LoadDevice: errlog.Info("Got device config")
-  (718889256, .clean),  -- asa.State.LoadDevice: errlog.Info("Parsed device config")
-  (124531207, .clean),  -- cisco.State.LoginEnable: errlog.Abort("Authentication for enable mode failed")
-  (2809980118, .clean),  -- cisco.State.LoginEnable: errlog.Abort("Authentication failed")
-  (2553024031, .deviceOutput),  -- console.Conn.logString: fh.Write([]byte(s))
-  (34728130, .deviceOutput),  -- console.Conn.WaitLogin: errlog.Abort("while waiting for login prompt '%s': %v", prompt, err)
-  (2747855576, .deviceOutput),  -- console.Conn.WaitShort: errlog.Abort("while waiting for prompt '%s': %v", prompt, err)
-  (1965117049, .deviceOutput),  -- console.Conn.waitPrompt: errlog.Abort("while waiting for prompt '%s': %v", re, err)
-  (465501159, .deviceOutput),  -- console.Conn.StripStdPrompt: errlog.Abort("Missing prompt '%s' in response:\n'%v'", c.promptRE, s)
-  (1995115835, .deviceOutput),  -- console.Conn.StripEcho: errlog.Abort("Got unexpected echo in response to '%s':\n%v", cShort, s)
-  (1777840621, .fc17),  -- device.ApproveOrCompare$lit1: errlog.Abort("%v", err)
-  (2637906826, .clean),  -- device.state.compare: errlog.Warning("%v", w)
-  (1300919655, .clean),  -- device.state.compare: fmt.Fprint(logFH, s.ShowChanges())
-  (1567929003, .clean),  -- device.state.applyCommands: errlog.DoLog(logFH, "No changes applied")
-  (1979259152, .clean),  -- doapprove.Main$lit1: fmt.Fprintf(os.Stderr, "Usage: %s [options] approve|compare DEVICE\n%s", os.Args[0)
-  (2795548354, .clean),  -- doapprove.Main: fmt.Fprintf(os.Stderr, "Error: %v\n", err)
-  (1158433574, .clean),  -- doapprove.Main: abort("%v", err)
-  (3036082519, .clean),  -- doapprove.Main: abort("Can't get 'current' policy directory: %v", err)
-  (429582780, .clean),  -- doapprove.Main: abort("unknown device %q", devName)
-  (1141655955, .clean),  -- doapprove.Main: abort("%v", err)
-  (4279506205, .clean),  -- doapprove.Main: abort("can't %v", err)
-  (1641851781, .clean),  -- doapprove.Main: logHistory(hLog, "START:", strings.Join(os.Args[1:], " "))
-  (1374143802, .clean),  -- doapprove.Main: logHistory(hLog, "POLICY:", policy)
-  (4229173348, .clean),  -- doapprove.Main: abort("can't %v", err)
-  (3896769818, .copyOfRunLog),  -- doapprove.Main: fmt.Printf("%s:%s\n", devName, line)
-  (1001486910, .copyOfRunLog),  -- doapprove.Main: fmt.Println(line)
-  (3640568634, .copyOfRunLog),  -- doapprove.Main: logHistory(hLog, "RES:", line)
-  (4278961598, .clean),  -- doapprove.Main: fmt.Fprintf(os.Stderr, "%s, details in %s\n", okMsg, logFile)
-  (3847597962, .clean),  -- doapprove.Main: logHistory(hLog, "END:", okMsg)
-  (543192318, .clean),  -- doapprove.logHistory: fmt.Fprintln(fh, slices.Concat([]any{prefix}, args))
-  (486728807, .clean),  -- doapprove.abort: fmt.Fprintf(os.Stderr, "Error: " + format + "\n", args)
-  (1926030319, .maskError),  -- httpdevice.TryReachableHTTPLogin: errlog.Warning("%v", err)
-  (2067641478, .clean),  -- ios.State.LoadDevice: errlog.Info("Requesting device config")
-  (498622143, .clean),  -- ios.State.LoadDevice: errlog.Info("Got device config")
-  (4213378348, .clean),  -- ios.State.LoadDevice: errlog.Info("Parsed device config")
-  (1538194706, .clean),  -- linux.State.loginEnable: errlog.Abort("Authentication failed")
-  (2723757662, .nsxLogin),  -- nsx.State.LoadDevice$lit1: errlog.DoLog(logLogin, "POST " + uri)
-  (1865173556, .nsxLogin),  -- nsx.State.LoadDevice$lit1: errlog.DoLog(logLogin, v.Encode())
-  (2537087225, .nsxLogin),  -- nsx.State.LoadDevice$lit1: errlog.DoLog(logLogin, resp.Status)
-  (3562657534, .clean),  -- nsx.State.LoadDevice: errlog.DoLog(logConfig, string(out))
-  (1156911275, .maskUri),  -- panos.State.getAPIKey: errlog.DoLog(logFH, loggedURI)
-  (1050534381, .maskBody),  -- panos.State.getAPIKey: errlog.DoLog(logFH, loggedBody)
-  (2398201531, .maskApi),  -- panos.State.httpPrefixGetLog: errlog.DoLog(logFH, loggedURI)
-  (1213084796, .clean),  -- panos.State.httpPrefixGetLog: errlog.DoLog(logFH, string(body))
-  (3437439013, .clean)   -- program.Config.askPassword: fmt.Printf("Enter password for %q: ", c.User)
+  (1426961306, .clean),  -- stderr: program.LoadConfig$insert: program.warn("Ignoring key '%s' in %s", key, file)
+  (1073036779, .clean),  -- stderr: program.LoadConfig: program.warn("Ignoring line '%s' in %s", line, file)
+  (2983541576, .clean),  -- stderr: program.LoadConfig: program.warn("Ignoring duplicate key '%s' in %s", key, file)
+  (3454247151, .wrapper),  -- stderr: program.warn: fmt.Fprintf("WARNING>>> " + f + "\n", l)
+  (2216227620, .clean),  -- stdout: program.Config.askPassword: fmt.Printf("Enter password for %q: ", c.User)
+  (3847446527, .clean),  -- status: status.write: os.WriteFile(data)
+  (2977074346, .wrapper),  -- runlog: errlog.Abort: errlog.PrintWithMarker("ERROR>>> ", format, args)
+  (1396502767, .wrapper),  -- runlog: errlog.Info: fmt.Fprintf(format + "\n", args)
+  (1376859058, .wrapper),  -- runlog: errlog.Warning: errlog.PrintWithMarker("WARNING>>> ", format, args)
+  (3576850227, .wrapper),  -- session: errlog.DoLog: fmt.Fprintln(s)
+  (1920489586, .clean),  -- runlog: errlog.SetStderrLog: errlog.Abort("Can't %v", err)
+  (3237979617, .wrapper),  -- runlog: errlog.PrintWithMarker: fmt.Fprintln(m + out)
+  (722468467, .maskError),  -- runlog: httpdevice.TryReachableHTTPLogin: errlog.Warning("%v", err)
+  (3227160347, .nsxLogin),  -- session: nsx.State.LoadDevice$lit1: errlog.DoLog("POST " + uri)
+  (2387804195, .nsxLogin),  -- session: nsx.State.LoadDevice$lit1: errlog.DoLog(v.Encode())
+  (4181794324, .nsxLogin),  -- session: nsx.State.LoadDevice$lit1: errlog.DoLog(resp.Status)
+  (3517491638, .clean),  -- session: nsx.State.LoadDevice: errlog.DoLog(string(out))
+  (1788849806, .clean),  -- session: nsx.State.ApplyCommands: errlog.DoLog(fmt.Sprintf("URI: %s %s", c.method, c.url))
+  (3671529160, .clean),  -- session: nsx.State.ApplyCommands: errlog.DoLog("DATA: " + string(c.postData))
+  (4271414601, .clean),  -- session: nsx.State.ApplyCommands: errlog.DoLog("RESP: " + string(resp))
+  (2888775463, .clean),  -- runlog: nsx.rulesPair.equalizeGroups$equalize: errlog.Abort("Rule %s references group %s not defined in Netspoc config", rb.)
+  (4200236841, .maskUri),  -- session: panos.State.getAPIKey: errlog.DoLog(loggedURI)
+  (3182134139, .maskBody),  -- session: panos.State.getAPIKey: errlog.DoLog(loggedBody)
+  (2353578507, .maskApi),  -- session: panos.State.httpPrefixGetLog: errlog.DoLog(loggedURI)
+  (3443646476, .clean),  -- session: panos.State.httpPrefixGetLog: errlog.DoLog(string(body))
+  (1872131003, .clean),  -- runlog: panos.vsysInfo.checkGroupCycle$visit: errlog.Abort("Address-group %s of %s must not be member of itself", name, v.v)
+  (1916444384, .wrapper),  -- session: console.Conn.logString: (*os.File).Write([]byte(s))
+  (2006197458, .deviceOutput),  -- session: console.Conn.expectLog: console.Conn.logString(out)
+  (3330218861, .deviceOutput),  -- runlog: console.Conn.WaitLogin: errlog.Abort("while waiting for login prompt '%s': %v", prompt, err)
+  (571890465, .deviceOutput),  -- runlog: console.Conn.WaitShort: errlog.Abort("while waiting for prompt '%s': %v", prompt, err)
+  (3014076404, .deviceOutput),  -- runlog: console.Conn.waitPrompt: errlog.Abort("while waiting for prompt '%s': %v", re, err)
+  (2871064972, .deviceOutput),  -- session: console.Conn.TryPrompt: console.Conn.logString(out)
+  (809453244, .deviceOutput),  -- runlog: console.Conn.StripStdPrompt: errlog.Abort("Missing prompt '%s' in response:\n'%v'", c.promptRE, s)
+  (1339996420, .deviceOutput),  -- runlog: console.Conn.StripEcho: errlog.Abort("Got unexpected echo in response to '%s':\n%v", cShort, s)
+  (1217757606, .clean),  -- runlog: linux.config.MergeSpoc: errlog.Info("Adding all chains of table %q", tName)
+  (2896584212, .clean),  -- runlog: linux.config.MergeSpoc: errlog.Info("Adding chain %q of table %q", cName, tName)
+  (138981777, .clean),  -- runlog: linux.config.MergeSpoc: errlog.Abort("Must not redefine chain %q of table %q from rawdata", cName, tN)
+  (2544861981, .clean),  -- runlog: linux.State.loginEnable: errlog.Abort("Authentication failed")
+  (166773128, .clean),  -- runlog: linux.State.checkDeviceName: errlog.Abort("Wrong device name: %q, expected: %q", out, name)
+  (357488966, .clean),  -- runlog: linux.State.ApplyCommands: errlog.Info("Changing iptables running config")
+  (4072276580, .clean),  -- runlog: linux.State.cmd$check: errlog.Abort("Got unexpected output from '%s':\n%s", ci, out)
+  (2395279203, .clean),  -- runlog: linux.State.cmd: errlog.Abort("%s failed (exit status)", strings.Replace(c, "\n", "\\N ", 1))
+  (3687608776, .clean),  -- runlog: linux.State.findIPTablesRestoreCmd: errlog.Abort("Can't find path of 'iptables-restore'")
+  (2521483344, .clean),  -- runlog: linux.createTemp: errlog.Abort("can't %v", err)
+  (1636464064, .clean),  -- tempfile: linux.State.writeStartup: fmt.Fprintln(entry)
+  (650155503, .clean),  -- runlog: linux.State.putScp: errlog.Info("Executing %s", cmd)
+  (3392866934, .clean),  -- runlog: linux.State.putScp: errlog.Abort("%s failed: %v", cmd, err)
+  (2373912744, .clean),  -- runlog: linux.parseRoutes: errlog.Abort("Unexpected route: %s", line)
+  (2424245601, .clean),  -- runlog: linux.parseRoutes: errlog.Abort("Unexpected route: %s", line)
+  (2407467982, .clean),  -- runlog: linux.parseRoutes: errlog.Abort("Unexpected route: %s", line)
+  (4078003088, .clean),  -- runlog: linux.State.parseIPTables: errlog.Abort("Found chain policy outside of table: %q", line)
+  (927867087, .clean),  -- runlog: linux.State.parseIPTables: errlog.Abort("Found rule outside of table: %q", line)
+  (1788832812, .clean),  -- runlog: linux.State.parseIPTables: errlog.Abort("Unsupported command %q", words[0])
+  (371065354, .clean),  -- runlog: linux.State.parseIPTables: errlog.Abort("Incomplete command %q", line)
+  (2897825767, .clean),  -- runlog: linux.State.parseIPTables: errlog.Abort("Must define policy before adding rules of chain %q", name)
+  (477753802, .clean),  -- runlog: linux.State.parseIPTables: errlog.Abort("Unexpected trailing '!' in line\n %s", line)
+  (3887307948, .clean),  -- runlog: linux.State.parseIPTables: errlog.Abort("Unknown command: %q", line)
+  (169398385, .clean),  -- runlog: cisco.Config.MergeSpoc: errlog.Abort("Command '%s' not supported in raw file", prefix)
+  (475242251, .clean),  -- runlog: cisco.Config.MergeSpoc: errlog.Warning(w)
+  (1554030343, .clean),  -- runlog: cisco.mergeRefs: errlog.Abort("Name clash for '%s %s' from raw", prefix, bName)
+  (1213704602, .clean),  -- runlog: cisco.mergeRefs: errlog.Abort("Must reference '%s %s' only once in raw", prefix, bName)
+  (1570807962, .clean),  -- runlog: cisco.mergeRefs: errlog.Abort("Name clash for '%s %s' from raw", prefix, bName)
+  (1196926983, .clean),  -- runlog: cisco.mergeRefs: errlog.Abort("Must reference '%s %s' only once in raw", prefix, bName)
+  (3641969052, .clean),  -- runlog: cisco.State.LoginEnable: errlog.Abort("Authentication for enable mode failed")
+  (2272147273, .clean),  -- runlog: cisco.State.LoginEnable: errlog.Abort("Authentication failed")
+  (2472794488, .clean),  -- runlog: cisco.State.diffIOSACLs: errlog.Abort("Can't insert more than 9999 ACL lines at once")
+  (820898933, .clean),  -- runlog: cisco.State.diffRoutes: errlog.Info("No %s routing specified%s, leaving untouched", ipv, forVRF)
+  (210809395, .clean),  -- runlog: cisco.State.addCmds$add: errlog.Abort("'%s %s' must be transferred manually", prefix, name)
+  (1002718276, .clean),  -- runlog: cisco.matchCryptoMap$getPeer: errlog.Abort("Missing peer or dynamic in crypto map %s %d", name, seq)
+  (448219887, .clean),  -- runlog: cisco.dstOfRoute$need: errlog.Abort("Incomplete command: %s", c.orig)
+  (3626627582, .clean),  -- runlog: cisco.dstOfRoute: errlog.Abort("Missing IPv6 prefix in: %s", c.orig)
+  (534067665, .clean),  -- runlog: cisco.State.checkASAInterfaces: errlog.Warning("Interface '%s' on device is not known by Netspoc", name)
+  (751750452, .clean),  -- runlog: cisco.State.checkIOSInterfaces: errlog.Warning("Different address defined for interface %s:" + " Device: %q, Ne)
+  (1953379027, .clean),  -- runlog: cisco.State.checkIOSInterfaces: errlog.Warning("Interface '%s' on device is not known by Netspoc", name)
+  (3870535312, .clean),  -- runlog: cisco.State.alignVRFs$routeVRF: errlog.Abort("Incomplete command: %s", c.orig)
+  (57027769, .clean),  -- runlog: cisco.State.alignVRFs: errlog.Info("Leaving VRF %s untouched", vrf)
+  (2938217857, .clean),  -- runlog: cisco.postprocessParsed$setTransRef: errlog.Abort("Too many names (max. 11) in: %s", c.orig)
+  (164854726, .clean),  -- runlog: cisco.postprocessParsed: errlog.Abort("Incomplete command: %s", c.orig)
+  (3451097736, .clean),  -- runlog: cisco.postprocessParsed: errlog.Abort("aaa-server %s must not use different values" + " in 'ldap-attri)
+  (2724902283, .clean),  -- runlog: cisco.postprocessACLParts$need: errlog.Abort("Incomplete command: %s", c.orig)
+  (4176661979, .clean),  -- runlog: ios.State.LoadDevice: errlog.Info("Requesting device config")
+  (3049987104, .clean),  -- runlog: ios.State.LoadDevice: errlog.Info("Got device config")
+  (919505617, .clean),  -- runlog: ios.State.LoadDevice: errlog.Info("Parsed device config")
+  (1440195828, .clean),  -- runlog: ios.State.checkDeviceName: errlog.Abort("Wrong device name: %q, expected: %q", out, name)
+  (4209456557, .clean),  -- runlog: ios.State.writeMem: errlog.Abort("write mem: startup-config open failed - giving up")
+  (2208592034, .clean),  -- runlog: ios.State.writeMem: errlog.Abort("write mem: unexpected result: %s", out)
+  (3583489752, .clean),  -- runlog: ios.State.cmd$check: errlog.Abort("Got unexpected output from '%s':\n%s", ci, out)
+  (3593978784, .clean),  -- runlog: ios.isValidOutput: errlog.Warning("Got unexpected output from '%s':\n%s", cmd, line)
+  (2290859593, .clean),  -- runlog: ios.State.stripReloadBanner: errlog.Info("Found banner before output, expecting another prompt")
+  (1374261373, .clean),  -- runlog: ios.State.stripReloadBanner: errlog.Info("Found banner after output, checking another prompt")
+  (1613414424, .clean),  -- runlog: ios.State.stripReloadBanner: errlog.Info("- Found prompt")
+  (377219855, .clean),  -- runlog: asa.State.LoadDevice: errlog.Info("Requesting device config")
+  (2824083316, .clean),  -- runlog: asa.State.LoadDevice: errlog.Info("Got device config")
+  (2755228629, .clean),  -- runlog: asa.State.LoadDevice: errlog.Info("Parsed device config")
+  (3367788304, .clean),  -- runlog: asa.State.checkDeviceName: errlog.Abort("Wrong device name: %q, expected: %q", out, name)
+  (1382910144, .clean),  -- runlog: asa.State.ApplyCommands: errlog.Abort("Command 'write memory' failed, missing [OK] in output:\n%s", ou)
+  (3645884492, .clean),  -- runlog: asa.State.cmd$check: errlog.Abort("Got unexpected output from '%s':\n%s", ci, out)
+  (780858324, .clean),  -- runlog: asa.isValidOutput: errlog.Warning("Got unexpected output from '%s':\n%s", cmd, line)
+  (2784897780, .clean),  -- runlog: device.getRealDevice: errlog.Abort("Unexpected model %q in file %s.info\n", info.Model, fname)
+  (2102085953, .fc17),  -- runlog: device.ApproveOrCompare$lit1: errlog.Abort("%v", err)
+  (757218993, .clean),  -- runlog: device.CompareFiles$lit1: errlog.Abort("%v", err)
+  (706886136, .clean),  -- runlog: device.CompareFiles$lit1: errlog.Abort("%v", err)
+  (1435905492, .clean),  -- stdout: device.CompareFiles$lit1: fmt.Print(s.ShowChanges())
+  (2781534751, .clean),  -- runlog: device.state.compare: errlog.Warning("%v", w)
+  (1268453089, .clean),  -- session: device.state.compare: fmt.Fprint(s.ShowChanges())
+  (2701900043, .clean),  -- session: device.state.applyCommands: errlog.DoLog("No changes applied")
+  (1255930830, .clean),  -- runlog: device.state.showCompareInfo: errlog.Info("comp: device unchanged")
+  (749016665, .clean),  -- runlog: device.state.showCompareInfo: errlog.Info("comp: *** device changed ***")
+  (608377184, .clean),  -- stderr: doapprove.Main$lit1: fmt.Fprintf("Usage: %s [options] approve|compare DEVICE\n%s", os.Args[0], fs)
+  (1019141266, .clean),  -- stderr: doapprove.Main: fmt.Fprintf("Error: %v\n", err)
+  (3993843838, .clean),  -- stderr: doapprove.Main: doapprove.abort("%v", err)
+  (2490239823, .clean),  -- stderr: doapprove.Main: doapprove.abort("Can't get 'current' policy directory: %v", err)
+  (3858590340, .clean),  -- stderr: doapprove.Main: doapprove.abort("unknown device %q", devName)
+  (3977066219, .clean),  -- stderr: doapprove.Main: doapprove.abort("%v", err)
+  (28087493, .clean),  -- stderr: doapprove.Main: doapprove.abort("can't %v", err)
+  (3351421981, .clean),  -- history: doapprove.Main: doapprove.logHistory(hLog, "START:", strings.Join(os.Args[1:], " "))
+  (923939698, .clean),  -- history: doapprove.Main: doapprove.logHistory(hLog, "POLICY:", policy)
+  (4272721932, .clean),  -- stderr: doapprove.Main: doapprove.abort("can't %v", err)
+  (4019692479, .copyOfRunLog),  -- stdout: doapprove.Main: fmt.Printf("%s:%s\n", devName, line)
+  (3136646267, .copyOfRunLog),  -- stdout: doapprove.Main: fmt.Println(line)
+  (3043593554, .copyOfRunLog),  -- history: doapprove.Main: doapprove.logHistory(hLog, "RES:", line)
+  (1161963054, .clean),  -- stderr: doapprove.Main: fmt.Fprintf("%s, details in %s\n", okMsg, logFile)
+  (3833772354, .clean),  -- history: doapprove.Main: doapprove.logHistory(hLog, "END:", okMsg)
+  (1755246534, .wrapper),  -- history: doapprove.logHistory: fmt.Fprintln(slices.Concat([]any{prefix}, args))
+  (3935597105, .wrapper),  -- stderr: doapprove.abort: fmt.Fprintf("Error: " + format + "\n", args)
+  (1779343036, .clean),  -- stderr: drc.Main$lit1: fmt.Fprintf("Usage: %s [options] FILE1\n" + " : %s [-q] FILE1 FILE2\n", prog)
+  (254340338, .clean),  -- stderr: drc.Main: fmt.Fprintf("Error: %v\n", err)
+  (3357906566, .clean),  -- stderr: drc.Main: fmt.Fprintf("version %s\n", version)
+  (1557844669, .clean),  -- stderr: drc.Main: drc.abort("%v", err)
+  (1507511812, .clean),  -- stderr: drc.Main: drc.abort("%v", err)
+  (1703673297, .wrapper)   -- stderr: drc.abort: fmt.Fprintf("Error: " + format + "\n", args)
 ]
 
 def lookup (id : Nat) : List (Nat × Cover) → Option Cover
@@ -91,7 +180,7 @@ def lookup (id : Nat) : List (Nat × Cover) → Option Cover
 def compatible (taintCode : Nat) : Cover → Bool
   | .fc17 => taintCode == 9
   | .maskUri | .maskBody | .maskError | .maskApi => taintCode == 1
-  | .clean | .nsxLogin | .deviceOutput | .copyOfRunLog => taintCode == 0
+  | .clean | .nsxLogin | .deviceOutput | .copyOfRunLog | .wrapper => taintCode == 0
 
 def siteOk (s : Site) : Bool :=
   match lookup s.id cover with
@@ -106,5 +195,47 @@ def taintedSites : List Nat := (sites.filter fun s => s.taintCode == 9).map (·.
 
 /-- Sites the table attributes to F-C17. -/
 def fc17Sites : List Nat := (cover.filter fun p => p.2 == .fc17).map (·.1)
+
+/-! ## failure kinds: calls whose error text embeds the request URL -/
+
+/-- The failure kinds of the run model the generated error sources correspond to. -/
+inductive FailureKind where
+  /-- `panos.httpGet`: `Reply.terr` of the keygen request (`keygen`) and of every later request (`prefixGet`) -/
+  | panosGet
+  /-- `url.Parse(addr)` in `getAPIKey`: the device address of the info file, no secret -/
+  | panosAddrParse
+  /-- NSX session-create `PostForm`: `NsxLogin.terr` -/
+  | nsxLoginPost
+  /-- NSX `http.NewRequest` / `client.Do`: `Reply.terr` of `nsxReqErr` -/
+  | nsxRequest
+  deriving DecidableEq, Repr
+
+/-- Hand-written: generated source id → failure kind of the model. -/
+def sourceKinds : List (Nat × FailureKind) := [
+  (31414, .panosGet),        -- panos.State.httpGet: s.client.Get(uri)
+  (57134, .panosAddrParse),  -- panos.State.getAPIKey: url.Parse(addr)
+  (8478, .nsxLoginPost),     -- nsx.State.LoadDevice$lit1: s.client.PostForm(uri, v)
+  (67010, .nsxRequest),      -- nsx.State.sendRequest: http.NewRequest(method, s.prefix+path, body)
+  (70132, .nsxRequest)       -- nsx.State.sendRequest: s.client.Do(req)
+]
+
+def sourceKind (id : Nat) : List (Nat × FailureKind) → Option FailureKind
+  | [] => none
+  | (i, k) :: r => if i = id then some k else sourceKind id r
+
+/-- Only the URL of the PAN-OS requests carries secrets. -/
+def sourceOk (s : ErrSource) : Bool :=
+  match sourceKind s.id sourceKinds with
+  | some .panosGet => s.urlCode == 9
+  | some _ => s.urlCode == 0
+  | none => false
+
+def unclassifiedSources : List Nat := (errSources.filter fun s => !sourceOk s).map (·.id)
+
+/-- Flows whose error text still shows a secret at the sink. -/
+def rawFlows : List (Nat × Nat) := (errFlows.filter fun f => f.raw).map fun f => (f.source, f.site)
+
+/-- Sink kinds that occur (kindCode of `Site`). -/
+def kindsPresent : List Nat := [1, 2, 3, 4, 5, 6].filter fun k => sites.any fun s => s.kindCode == k
 
 end NA.C17
